@@ -36,7 +36,7 @@ def compare_csr(c, ir, mr, g, m0):
     dis = []
     N = c.N
     if dc.nonfinite(ir["spectrum"]) or dc.nonfinite(ir["power"]):
-        return [("nonfinite", dict(what="spectrum/power"))], None
+        return [("nonfinite", dict(which="spectrum/power"))], None
     tol = spec_tolerances(c, ir, g, m0)
     df = ir["df"][0]
     for i in range(N):
@@ -160,9 +160,96 @@ def run_pairs(ctx, pairs, nmodel):
     return dis
 
 
+def _bunch_result(r, b, N):
+    """the part of a csrmb record that belongs to bunch b, shaped like a single-bunch csr record"""
+    d = dict(phys=r["phys"], df=r["df"], freq=r["freq"], renorm=r["renorm"],
+             spectrum=r["spectrum"][b * N:(b + 1) * N], power=[r["power"][b]],
+             wakepad=r["wakepad%d" % b], padded=r["padded%d" % b])
+    return d
+
+
+def run_multibunch(ctx, pairs, nmodel):
+    """updateCSR on one object with several bunches after a history of other calls (second wave).
+    Oracles on the implementation, for EVERY bunch index: row b and power b bit-identical to those of a fresh
+    single-bunch object given bunch b alone; power b = delta_f * sum of its own row; Parseval, signs and
+    "cutoff makes it smaller" per bunch.  Correspondence: row b / power b against the extracted model of
+    bunch b alone (what C07_multibunch_spectrum_row / _power state)."""
+    import copy
+    r0 = dc.run_impl(ctx, "".join(c0.impl_text("csrmb") for c0, _ in pairs))
+    for c0, c1 in pairs:
+        fr = r0[c0.cid]
+        fmax = float(fr["df"][1]) * float(fr["freq"][-1])
+        c1.cutoff = f32(fmax * c1.cut_frac)
+    r1 = dc.run_impl(ctx, "".join(c1.impl_text("csrmb") for _, c1 in pairs))
+    ctx.log("implementation ran %d multi-bunch csr cases" % (2 * len(pairs)))
+    dis = []
+    texts, todo = [], []
+    for k, (c0, c1) in enumerate(pairs):
+        N = c0.N
+        for c, r in ((c0, r0[c0.cid]), (c1, r1[c1.cid])):
+            if dc.nonfinite(r["spectrum"]) or dc.nonfinite(r["power"]):
+                ctx.violation("impl-oracle", "non-finite CSR spectrum/power (several bunches)", case=c.replay("csrmb"),
+                              sig=dict(kind="csrmb", clause="finite"))
+                continue
+            df = r["df"][0]
+            for b in range(c.nb):
+                row = r["spectrum"][b * N:(b + 1) * N]
+                # each bunch's spectrum and power use only its own profile: bit-identical to the bunch alone
+                srow, spow = r["single_spectrum%d" % b], r["single_power%d" % b][0]
+                if row != srow:
+                    j = next(t for t in range(N) if row[t] != srow[t])
+                    ctx.violation("impl-oracle", "row %d of the CSR spectrum of an object with %d bunches differs from the spectrum of that bunch alone "
+                                  "(fresh single-bunch object, same transform length and impedance)" % (b, c.nb), case=c.replay("csrmb"),
+                                  observed=dict(bunch=b, cell=j, got=str(row[j]), alone=str(srow[j])), expected="bit-identical",
+                                  sig=dict(kind="csrmb", clause="bunch-alone-spectrum", first_bunch=b == 0))
+                elif r["power"][b] != spow:
+                    ctx.violation("impl-oracle", "CSR power of bunch %d of an object with %d bunches differs from the power of that bunch alone although "
+                                  "the spectrum rows agree" % (b, c.nb), case=c.replay("csrmb"),
+                                  observed=dict(bunch=b, got=str(r["power"][b]), alone=str(spow)), expected="bit-identical",
+                                  sig=dict(kind="csrmb", clause="bunch-alone-power", first_bunch=b == 0))
+                # power b = delta_f * sum of its OWN row (nothing carried over from the bunches before)
+                terms = [df * v for v in row]
+                own = sum(terms)
+                tol = (N + 8) * U * sum(abs(t) for t in terms) + Fraction(1, 2 ** 140)
+                if abs(r["power"][b] - own) > tol:
+                    ctx.violation("impl-oracle", "CSR power of bunch %d is not delta_f times the sum of its own spectrum row" % b,
+                                  case=c.replay("csrmb"), observed=dict(bunch=b, power=float(r["power"][b]), delta_f_times_row_sum=float(own)),
+                                  expected=dict(tol=float(tol)), sig=dict(kind="csrmb", clause="own-row-sum", first_bunch=b == 0))
+                ctx.evaluations += 1
+        # Parseval, signs, cutoff per bunch through the single-bunch oracle
+        for b in range(c0.nb):
+            b0, b1 = c0.bunch_case(b), c1.bunch_case(b)
+            b0.replay = (lambda kind="csr", c=c0, b=b: dict(c.replay("csrmb"), bunch=b))
+            b1.replay = (lambda kind="csr", c=c1, b=b: dict(c.replay("csrmb"), bunch=b))
+            if any(dc.nonfinite(r0[c0.cid][t]) for t in ("spectrum", "power")) or any(dc.nonfinite(r1[c1.cid][t]) for t in ("spectrum", "power")):
+                continue
+            oracle_csr(ctx, b0, b1, _bunch_result(r0[c0.cid], b, N), _bunch_result(r1[c1.cid], b, N))
+            c0.parseval_ratio = max(getattr(c0, "parseval_ratio", 0.0), getattr(b0, "parseval_ratio", 0.0))
+            if k < nmodel:
+                g = dc.cutoff_factors(r1[c1.cid], c1.cutoff)
+                texts.append(b0.model_csr_text(r0[c0.cid], None))
+                texts.append(b1.model_csr_text(r1[c1.cid], g))
+                todo.append((b0, b1, _bunch_result(r0[c0.cid], b, N), _bunch_result(r1[c1.cid], b, N), g))
+        ctx.case_done(("csrmb", c0.cid), c0.nb > 1 and sum(1 for pr in c0.prof if any(v != 0 for v in pr)) > 1)
+    if texts:
+        mr = dc.run_model(ctx, texts)
+        ctx.log("model ran %d per-bunch csr cases" % len(texts))
+        for b0, b1, rb0, rb1, g in todo:
+            for c, r, gg in ((b0, rb0, None), (b1, rb1, g)):
+                d, _ = compare_csr(c, r, mr[c.cid], gg, mr[b0.cid]["spectrum"])
+                if d:
+                    dis.append(dict(case=c.replay("csr"), detail=[dict(what=w, **x) for w, x in d[:3]],
+                                    sig=dict(kind="csrmb", stage="correspondence", what=d[0][0])))
+                ctx.evaluations += 1
+    return dis
+
+
 def run(ctx):
-    ctx.rule = ("csr cases on ElectricField through its public API, ONE bunch per object and a fresh object per call (updateCSR with "
-                "several bunches reuses a stale padded buffer: that is property C18): N from the C06 list, n 8..32, bucket 0..2, "
+    ctx.rule = ("second wave: 120 (thorough 2000) pairs of csrmb cases - updateCSR on ONE object with nb = 1..3 bunches, spacing zero (the program's "
+                "radiation field) and non-zero, buckets in any order, after 0..3 earlier wakePotential/padBunchProfiles/updateCSR calls with other profiles; "
+                "for EVERY bunch: spectrum row and power bit-identical to a fresh single-bunch object given that bunch alone, power = delta_f * sum of its "
+                "own row, Parseval/signs/cutoff per bunch, and (6 pairs, thorough 50) the extracted model of that bunch alone. First wave: "
+                "csr cases on ElectricField through its public API, ONE bunch per object and a fresh object per call: N from the C06 list, n 8..32, bucket 0..2, "
                 "impedances passive-random / smooth passive / random sign, profiles random/gauss/impulse/signed/integer; each case "
                 "once with the cutoff off and once with a cutoff frequency inside the axis. Correspondence: getCSRSpectrum and "
                 "getCSRPower against the extracted model (tolerance from the transform's absolute error in F). Oracles on the "
@@ -172,12 +259,16 @@ def run(ctx):
     sizes = dc.QUICK_SIZES if ctx.quick() else dc.THOROUGH_SIZES
     pairs = dc.gen_csr_cases(ctx, 150 if ctx.quick() else 3000, sizes)
     dis = run_pairs(ctx, pairs, 20 if ctx.quick() else 300)
+    mpairs = dc.gen_csrmb_cases(ctx, 120 if ctx.quick() else 2000, sizes)
+    dis += run_multibunch(ctx, mpairs, 6 if ctx.quick() else 50)
+    ctx.sample(mpairs[0][0].describe())
     ctx.sample(pairs[0][0].describe())
     ctx.sample(pairs[0][1].describe())
     ctx.extra["correspondence_disagreements"] = len(dis)
     ctx.extra["max_parseval_residual_over_tolerance"] = max(getattr(c0, "parseval_ratio", 0.0) for c0, _ in pairs)
     ctx.extra["median_wake_loss_over_tolerance"] = sorted(getattr(c0, "parseval_scale", 0.0) for c0, _ in pairs)[len(pairs) // 2]
-    ctx.assumptions += ["single bunch, fresh object per call (multi-bunch updateCSR transforms stale buffer content: C18)",
+    ctx.assumptions += ["per-bunch Parseval compares the power of bunch b with the wake loss of bunch b ALONE (fresh single-bunch object of the same "
+                        "transform length and impedance): the wake of a multi-bunch train mixes the bunches and is not what the property relates the power to",
                         "exact-arithmetic model over Qc with a 60-bit dyadic twiddle table; the cutoff factors g_i are supplied to the "
                         "model as double-precision values of 1-exp(-(f_i/f_c)^2) on the implementation's frequency axis (exp is not executable over Qc)",
                         "delta_f is read from getFreqRuler()->delta(): its value (1/(delta_q (N-1))) is not part of this property",
